@@ -45,27 +45,31 @@ Proof.
   unfold NOIDLENr, NUMOID. rewrite !BT_cat. apply BT_ext. intros s1 p1 c1. rewrite !BT_cat. reflexivity.
 Qed.
 
+Definition len_stop (c : N) : bool := is_digdot c || (c =? 123).
+
 Lemma m_LEN g l rest pos cs k :
-  len_ok l -> (exists r, rest = 32 :: r) -> eats (LENr g) (len_text l) rest pos cs k g (g + 1).
+  len_ok l -> starts_not len_stop rest -> eats (LENr g) (len_text l) rest pos cs k g (g + 1).
 Proof.
-  intros Hl (r & ->). unfold LENr. destruct l as [z|].
+  intros Hl Hr. unfold LENr. destruct l as [z|].
   - destruct (len_arc z Hl) as [Ha _]. cbn [len_text]. apply eats_opt_some. apply eats_group; [lia|].
     apply (eats_cat _ _ [123]); [apply eats_ch|]. intros c1.
     apply (eats_cat _ _ (str_of_int z) [125]); [|intros c2; apply eats_ch].
     apply eats_group; [lia|]. eapply eats_eq; [apply only_touches_refl|]. apply m_NUM; [assumption|reflexivity|].
     intros x s p c Hx. apply BT_ch_no. intros ->. discriminate.
-  - cbn [len_text]. apply eats_opt_none. intros k'. apply reject_first; reflexivity.
+  - cbn [len_text]. apply eats_opt_none. intros k'. apply reject_first; [|reflexivity].
+    destruct rest as [|x r]; [reflexivity|]. unfold ch. cbn [first_in first nullable andb]. rewrite ok_ch. unfold starts_not, len_stop in Hr.
+    apply orb_false_iff in Hr. destruct Hr as [_ ->]. reflexivity.
 Qed.
 
 Lemma m_SYNTAX s l rest pos cs k :
-  numoid_ok s -> len_ok l -> (exists r, rest = 32 :: r) -> krej is_digdot k ->
+  numoid_ok s -> len_ok l -> starts_not len_stop rest -> krej is_digdot k ->
   eats (Alt (NOIDLENr 54) (QDSTRINGr 59)) (syn_text s l) rest pos cs k 54 59.
 Proof.
   intros Hs Hl Hr Hk. apply eats_alt_l. unfold syn_text. intros Hnb.
   set (k' := fun (s1 : list N) (p1 : nat) (c1 : caps) => BT (LENr (54 + 3)) s1 p1 c1 k).
   destruct (m_NUMOID_eats 54 s (len_text l ++ rest) pos cs k') as (c1 & T1 & E1).
   - assumption.
-  - destruct l as [z|]; [reflexivity|]. destruct Hr as (r & ->). reflexivity.
+  - destruct l as [z|]; [reflexivity|]. cbn [len_text app]. destruct rest as [|x r]; [exact I|]. unfold starts_not, len_stop in *. apply orb_false_iff in Hr. tauto.
   - intros x s0 p c Hx. unfold k', LENr, optg. rewrite BT_alt, BT_reject; [rewrite BT_eps; now apply Hk| |now left].
     unfold ch. cbn [first_in first nullable andb]. rewrite ok_ch. chr_tac.
   - intros c'. unfold k'. destruct (m_LEN (54 + 3) l rest (pos + length s) c' k Hl Hr) as (c2 & _ & E2).
@@ -277,7 +281,7 @@ Proof.
     + cbn. chr_tac.
     + discriminate.
     + intros junk p c k' Hk'. apply m_SYNTAX; [assumption|assumption| |assumption].
-      destruct (starts_sp A9f _ (afollow9 single col num u e junk) eq_refl) as (s' & ->). eexists; reflexivity.
+      destruct (starts_sp A9f _ (afollow9 single col num u e junk) eq_refl) as (s' & ->). reflexivity.
     + apply tail_rejects; [reflexivity|apply afirst9|apply digdot_not_sp].
   - cbn [syn_opt opt_seg app]. apply (tail_kw_absent AT_t9 _ 60 (QA9 single col num u e) 52 53 s_SYNTAX _ A9f); try lia; try reflexivity.
     + now apply at_t9.
